@@ -22,7 +22,8 @@ LEVEL_TEXT = ("Every generated matrix in a grid of (p, k, weight range) cells x 
               "variance (escalated z-score).")
 LEVEL_NOTE = "Statistical part: false-alarm bound 1e-12 per test; 'independently' is tested through first and second moments of edge counts only."
 RULE = ("cases: one generator call = (generator, p, k, weight range, seed, return_ordering).  distinct = distinct argument tuple; "
-        "non-trivial = the returned graph has at least one edge")
+        "non-trivial = the returned graph has at least one edge"
+        ' Also: numpy-scalar arguments, weight ranges 1e-12..1e9, debug=True with return_ordering, results of earlier calls re-checked after later calls and the seeded call repeated after the caller overwrote an earlier result.')
 ASSUMPTIONS = ["Chernoff-KL bound for binomial tails; occupancy asserted only where the union bound for a missing (node, position) is < 1e-12"]
 EXHAUSTIVE = {"quick": False, "thorough": False}
 SOFT_LIMIT = {"quick": 240, "thorough": 1500}
